@@ -460,6 +460,15 @@ func (f *rbFn) headerVars(h *ssa.BasicBlock) []string {
 				}
 				if d, ok := (*op).(ssa.Instruction); ok && d.Block() != nil && !l.Body[d.Block()] {
 					add(*op)
+					// a slice made before the loop and used in it: what its length is expressed in
+					if ln, ok := f.lens[*op]; ok {
+						for v := range ln.co {
+							if !seen[v] && len(vs) < 12 {
+								seen[v] = true
+								vs = append(vs, v)
+							}
+						}
+					}
 				} else if _, ok := (*op).(*ssa.Parameter); ok {
 					add(*op)
 				}
